@@ -379,26 +379,103 @@ def check_ctor(ctx):
         raise AnalysisError('FactoredInference.__init__: expected one loop over the zero specification')
     loop = loops[0]
     key = loop.target.id if isinstance(loop.target, ast.Name) else (loop.target.elts[0].id if isinstance(loop.target, ast.Tuple) else None)
-    no_filter = not any(isinstance(n, (ast.If, ast.Continue, ast.Break, ast.Try)) for s in loop.body for n in ast.walk(s))
-    ctx.ob('mask-per-key', fi, loop, no_filter, 'every key of the specification must get a mask (no filter / early exit in the loop)')
-    stores = [s for s in loop.body if isinstance(s, ast.Assign) and isinstance(s.targets[0], ast.Subscript)
-              and U(s.targets[0].value) == ZEROS]
-    defs = {s.targets[0].id: s.value for s in loop.body if isinstance(s, ast.Assign) and isinstance(s.targets[0], ast.Name)}
-    ok = False
-    detail = 'no store into self.structural_zeros found'
-    if stores:
-        s = stores[0]
-        v = s.value
-        detail = '`%s`' % U(s)
-        if U(s.targets[0].slice) == key and isinstance(v, ast.Call) and isinstance(v.func, ast.Attribute) \
-                and v.func.attr == 'active' and len(v.args) == 2:
-            d, z = v.args
-            d = defs.get(U(d), d)
-            z = defs.get(U(z), z)
-            ok = U(d) in ('self.domain.project(%s)' % key, 'domain.project(%s)' % key) and \
-                (U(z) == 'structural_zeros[%s]' % key or (isinstance(loop.target, ast.Tuple) and U(z) == U(loop.target.elts[1])))
-    ctx.ob('mask-per-key', fi, stores[0] if stores else loop, ok,
-           'mask for key K must be active(domain.project(K), specification[K]) stored under K; ' + detail)
+    from ..engines.blockeval import BlockEval, T
+    from ..srcmodel import clone
+    be = BlockEval(fi.qualname, loop_ok=lambda s_: True)
+    be.run([clone(loop)])
+    spec = 'structural_zeros[%s]' % key if not isinstance(loop.target, ast.Tuple) else U(loop.target.elts[1])
+    stores = [(idx, val, pc, st_) for cont, idx, val, pc, lp, st_ in be.substores if T(cont) == ZEROS]
+    escapes = any(isinstance(n, (ast.Continue, ast.Break, ast.Return)) for s_ in loop.body for n in ast.walk(s_))
+    # every key gets a mask: one unconditional store, or stores under complementary conditions
+    conds = [tuple((T(c), pol) for c, pol in pc) for idx, val, pc, st_ in stores]
+    covered = bool(stores) and (() in conds or any(len(a_) == 1 and ((a_[0][0], not a_[0][1]),) in conds for a_ in conds))
+    ctx.ob('mask-per-key', fi, loop, covered and not escapes,
+           'every key of the specification must get a mask (no filter / early exit in the loop); stores under %s' % (conds or 'no store'),
+           construct='coverage of the zero specification')
+    A_CAN = 'self.domain.canonical(%s)' % key
+    n_checked = 0
+    for idx, val, pc, st_ in stores:
+        n_checked += 1
+        kt = T(idx)
+        if kt == key:
+            mode = 'identity'
+        elif kt in (A_CAN, '%siftype(%s)isstrelse%s' % (key, key, A_CAN), '%sifisinstance(%s,str)else%s' % (key, key, A_CAN)):
+            mode = 'canonical'
+        else:
+            raise AnalysisError('FactoredInference.__init__: masks are stored under an unrecognised key `%s`' % U(idx)[:80])
+        if not (isinstance(val, ast.Call) and isinstance(val.func, ast.Attribute) and val.func.attr == 'active' and len(val.args) == 2):
+            ctx.ob('mask-per-key', fi, st_, False, 'the value stored for a key must be Factor.active(domain, cells); stores `%s`' % U(val)[:80])
+            continue
+        d, z = val.args
+        # the order of the mask's own domain decides the order the cell columns must be in; the dictionary key may be either spelling
+        dt = T(d)
+        X = None
+        for pre in ('self.domain.project(', 'domain.project('):
+            if dt.startswith(pre) and dt.endswith(')'):
+                X = dt[len(pre):-1]
+        cond_key = '%siftype(%s)isstrelse%s' % (key, key, A_CAN)
+        dom_ok = X in (key, A_CAN, cond_key, '%sifisinstance(%s,str)else%s' % (key, key, A_CAN))
+        if not dom_ok:
+            raise AnalysisError('FactoredInference.__init__: mask domain `%s` is in no recognised form' % U(d)[:80])
+        cells_ok, why = cells_match(z, key, X, spec, 'identity' if X == key else 'canonical')
+        ctx.ob('mask-per-key', fi, st_, dom_ok and cells_ok,
+               'mask for key K must be active(domain.project(K\'), cells\') stored under K\' where K\' is K or its canonical re-ordering and '
+               'the cell columns are re-ordered with it; domain `%s`, cells `%s`%s' % (U(d)[:60], U(z)[:110], why),
+               construct='mask stored under `%s`' % U(idx)[:50])
+    if not n_checked:
+        ctx.ob('mask-per-key', fi, loop, False, 'no store into self.structural_zeros found')
+
+
+def cells_match(z, key, kt, spec, mode):
+    """are the cells handed to Factor.active the specification's cells with their columns in the order of the stored key?"""
+    from ..engines.blockeval import T
+    A = kt
+    if isinstance(z, ast.IfExp):
+        # `cells if <key unchanged> else permuted`
+        t = T(z.test)
+        alts = {kt, '(%s)' % kt}
+        same_tests = {'%s==%s' % (a_, key) for a_ in alts} | {'%s==%s' % (key, a_) for a_ in alts}
+        diff_tests = {'%s!=%s' % (a_, key) for a_ in alts} | {'%s!=%s' % (key, a_) for a_ in alts}
+        if t in diff_tests:
+            perm, plain = z.body, z.orelse
+        elif t in same_tests:
+            perm, plain = z.orelse, z.body
+        else:
+            raise AnalysisError('FactoredInference.__init__: cells chosen under an unrecognised test `%s`' % U(z.test))
+        if T(plain) != spec.replace(' ', ''):
+            return False, '; the unpermuted alternative is not the specification'
+        return cells_match(perm, key, kt, spec, 'canonical')
+    if T(z) == spec.replace(' ', ''):
+        return (mode == 'identity'), ('' if mode == 'identity' else '; the key is re-ordered but the cell columns are not')
+    # permuted forms
+    P = None
+    if isinstance(z, ast.Subscript) and isinstance(z.slice, ast.Tuple) and len(z.slice.elts) == 2 and T(z.slice.elts[0]) == ':':
+        base = z.value
+        if isinstance(base, ast.Call) and U(base.func) in ('np.atleast_2d', 'np.array', 'np.asarray') and len(base.args) == 1 and T(base.args[0]) == spec.replace(' ', ''):
+            P = z.slice.elts[1]
+    elif isinstance(z, ast.ListComp) and len(z.generators) == 1 and T(z.generators[0].iter) == spec.replace(' ', '') and isinstance(z.elt, ast.Call) \
+            and U(z.elt.func) == 'tuple' and isinstance(z.elt.args[0], ast.GeneratorExp):
+        g = z.elt.args[0]
+        zv = U(z.generators[0].target)
+        if len(g.generators) == 1 and T(g.elt) == '%s[%s]' % (zv, U(g.generators[0].target)):
+            P = g.generators[0].iter
+    if P is None:
+        raise AnalysisError('FactoredInference.__init__: cells `%s` are in no recognised form' % U(z)[:80])
+    pt = T(P)
+    # strip the conditional key spelling: inside the permuted branch the key is the canonical tuple
+    for cond_key in ('%siftype(%s)isstrelse%s' % (key, key, 'self.domain.canonical(%s)' % key), '%sifisinstance(%s,str)else%s' % (key, key, 'self.domain.canonical(%s)' % key)):
+        pt = pt.replace('(%s)' % cond_key, 'self.domain.canonical(%s)' % key).replace(cond_key, 'self.domain.canonical(%s)' % key)
+        A = A.replace('(%s)' % cond_key, 'self.domain.canonical(%s)' % key).replace(cond_key, 'self.domain.canonical(%s)' % key)
+    good = '[%s.index(a)forain%s]' % (key, A)
+    inverse = '[%s.index(a)forain%s]' % (A, key)
+    import re
+    norm = re.sub(r'\bfor(\w+)in', 'forain', re.sub(r'index\((\w+)\)', 'index(a)', pt))
+    if norm == good:
+        return True, ''
+    if norm == inverse:
+        return False, '; the columns are permuted by the INVERSE permutation `%s` (position of each key attribute in the canonical order instead of ' \
+                      'position of each canonical attribute in the key): wrong for keys of three or more attributes that are rotations of the domain order' % U(P)
+    raise AnalysisError('FactoredInference.__init__: column permutation `%s` is in no recognised form' % U(P)[:80])
 
 
 def check_inf_guard(ctx):
